@@ -130,6 +130,37 @@ def corpus(rng):
     return files
 
 
+def boundary_files(rng):
+    """valid files whose content sits on an internal limit: 255..258 distinct colours (palette capacity), one used colour in a
+    large palette, 256-entry palettes with every entry used, 1-pixel-wide and 1-pixel-high interlaced images"""
+    files = []
+    for ct in (2, 6):
+        for ncol in (255, 256, 257, 258):
+            w, h = 23, 12
+            cols = set()
+            while len(cols) < ncol:
+                c = tuple(rng.randrange(256) for _ in range(3)) + ((rng.choice([255, 255, 0, 128]),) if ct == 6 else ())
+                cols.add(c)
+            cols = list(cols)
+            px = cols + [rng.choice(cols) for _ in range(w * h - ncol)]
+            rng.shuffle(px)
+            data = b"".join(bytes(c) for c in px)
+            tok = pg.img_token(w, h, ct, 8, False, None, data)
+            files.append((f"ncolors{ncol}", e2e.png_from_token(rng, tok, simple=True)))
+    for n, used in ((256, 256), (256, 1), (200, 2), (3, 1)):
+        pal = [tuple(rng.randrange(256) for _ in range(3)) for _ in range(n)]
+        idx = list(range(used)) + [rng.randrange(used) for _ in range(max(0, 300 - used))]
+        rng.shuffle(idx)
+        w, h = 20, len(idx) // 20
+        data = bytes(idx[: w * h])
+        tok = pg.img_token(w, h, 3, 8, False, [c + (255,) for c in pal], data)
+        files.append((f"palette{n}used{used}", e2e.png_from_token(rng, tok, simple=True)))
+    for (w, h) in ((1, 9), (9, 1), (2, 2), (5, 3)):
+        tok, _ = imggen.gen(rng, 2, 8, w, h, True, "random", "none")
+        files.append(("thin-interlaced", e2e.png_from_token(rng, tok, simple=True)))
+    return files
+
+
 def chunk_spans(b):
     spans = []
     off = 8
@@ -180,6 +211,17 @@ def mutants(rng, kind, b, quick):
                     m = bytearray(b)
                     m[off + 8 + fo] = v
                     out.append(("field8:IHDR", fix_crcs(bytes(m))))
+        if name == b"caBX":
+            # JUMBF boxes: the length field of the outer box and of the boxes nested at the usual offsets, with the special values of
+            # ISO BMFF (0 = to the end, 1 = 64-bit length follows) and off-by-a-few lengths, on the full and on shortened payloads
+            for fo in (0, 8, 16, 24):
+                for v in (0, 1, 2, 7, 8, 9, 15, 16, 17, ln - 1, ln + 1, 0xffffffff):
+                    for newln in {ln, 8, 9, 12, 15, 16, 17, 24} | {fo + 4, fo + 8, fo + 12}:
+                        if fo + 4 <= newln <= ln and v >= 0:
+                            pay = bytearray(b[off + 8:off + 8 + newln])
+                            pay[fo:fo + 4] = struct.pack(">I", v & 0xffffffff)
+                            body = name + bytes(pay)
+                            out.append(("jumbf-length", b[:off] + struct.pack(">I", newln) + body + struct.pack(">I", zlib.crc32(body) & 0xffffffff) + b[end:]))
         if name not in (b"IHDR", b"IDAT", b"IEND"):
             # every payload length of short chunks (each boundary between the fields of a structured payload is one of them),
             # a spread of lengths of long ones
@@ -228,6 +270,12 @@ def run(rep):
             cid = f"v{len(lines)}"
             lines.append(f"{cid} mem {o} {b.hex()}")
             meta[cid] = ("valid", len(b), o, b, kind)
+    # valid files on internal limits (palette capacity, palette usage, thin interlaced images), unmutated, under option vectors
+    for kind, b in boundary_files(rng):
+        for o in ("-", "preset=0", "preset=3,alpha=1", "preset=5,interlace=1", "fast=0,preset=2,filters=5", "strip=all,preset=4"):
+            cid = f"b{len(lines)}"
+            lines.append(f"{cid} mem {o} {b.hex()}")
+            meta[cid] = ("boundary:" + kind, len(b), o, b, kind)
     # absurd headers (F3/F4/F11 reproducers) and raw tuples
     def hdr_png(w, h, depth, ct, il, idat=b"\x78\x9c\x03\x00\x00\x00\x00\x01"):
         return pg.SIG + pg.chunk("IHDR", pg.ihdr_bytes(w, h, depth, ct, il)) + pg.chunk("IDAT", idat) + pg.chunk("IEND", b"")
